@@ -375,6 +375,8 @@ def parseLOp (tok : String) : Option LocalAuth.Op :=
       else if v == "previous" then .previous else .other (unhex (v.drop 2).toString)
     some (.req (some (unhex n, tv)))
   | ["destroy"] => some .destroy
+  | ["block"] => some .block
+  | ["unblock"] => some .unblock
   | _ => none
 
 def evalLauth (p : Pending) (obsToks : List String) : String :=
